@@ -5,6 +5,7 @@
 //!  '1 h' call a by-reference method      '2 h' obtain an owned wrapped child (Node::child)      '3 h' obtain a borrowed wrapped child, use and release it
 //!  '4 h' consuming call returning a wrapped child (Node::into_child)     '5 h' consuming call returning a plain value (Node::fin)
 //!  '6 h' clone (Clone objects and groups with Clone enabled)             '7 h' drop
+//!  '16 h' consuming call returning a plain value on a GROUP object (GFin::gfin)     '17 h' consuming call returning a wrapped child on a GROUP object (GFin::ginto_child)
 //!  '15 -77' create a boxed Peek2 object around a ZERO-SIZED instance
 //!  '11 h' cast! the group to Clone (fails and destroys the group when Clone is not enabled)   '12 h' upcast a cast group back
 //! after the script every slot is dropped in order.
@@ -31,7 +32,16 @@ pub trait RefNode {
     fn child_ref(&self) -> &Self::R;
 }
 
-cglue_trait_group!(LifeGrp, Peek2, { Clone });
+/// consuming methods on a group object (the group container's own cobj_base_owned takes it apart)
+#[cglue_trait]
+pub trait GFin {
+    #[wrap_with_obj(Peek2)]
+    type GChild: Peek2 + 'static;
+    fn gfin(self) -> i64;
+    fn ginto_child(self) -> Self::GChild;
+}
+
+cglue_trait_group!(LifeGrp, { Peek2, GFin }, { Clone });
 
 pub struct Inst { id: i64, sub: Option<Box<Inst>> }
 impl Inst { fn new(id: i64) -> Self { LIVE.fetch_add(1, SeqCst); Inst { id, sub: None } } fn with_sub(id: i64) -> Self { let mut i = Inst::new(id); i.sub = Some(Box::new(Inst::new(id + 500))); i } }
@@ -54,6 +64,7 @@ impl Node for Inst {
     fn into_child(self) -> Inst { Inst::new(self.id + 200) }
     fn fin(self) -> i64 { self.id + 300 }
 }
+impl GFin for Inst { type GChild = Inst; fn gfin(self) -> i64 { self.id + 300 } fn ginto_child(self) -> Inst { Inst::new(self.id + 200) } }
 impl RefNode for Inst { type R = Inst; fn child_ref(&self) -> &Inst { self.sub.as_ref().unwrap() } }
 
 /// a ZERO-SIZED instance: boxing it allocates nothing, but it still has a destructor that must run exactly once
@@ -71,6 +82,7 @@ impl Peek2 for Zst { fn peek2(&self) -> i64 { -77 } }
 
 pub struct InstNoClone(Inst);
 impl Peek2 for InstNoClone { fn peek2(&self) -> i64 { self.0.id } }
+impl GFin for InstNoClone { type GChild = Inst; fn gfin(self) -> i64 { self.0.id + 300 } fn ginto_child(self) -> Inst { Inst::new(self.0.id + 200) } }
 cglue_impl_group!(Inst, LifeGrp, { Clone });
 cglue_impl_group!(InstNoClone, LifeGrp, {});
 
@@ -147,6 +159,8 @@ pub fn run(_params: &[i64], ops: &Rows, mon: &mut Mon) -> Rows {
                     res = Some(None); } } }
             11 => { match take(&mut pool, h) { H::Grp(g) => { match cast!(g impl Clone) { Some(c) => res = Some(Some(H::GrpC(c))), None => res = Some(None) } } other => { if h >= 0 && (h as usize) < pool.len() { pool[h as usize] = other; } } } }
             12 => { match take(&mut pool, h) { H::GrpC(g) => res = Some(Some(H::Grp(g.upcast()))), other => { if h >= 0 && (h as usize) < pool.len() { pool[h as usize] = other; } } } }
+            16 => { match take(&mut pool, h) { H::Grp(o) => { let _ = o.gfin(); res = Some(None); } H::GrpC(o) => { let _ = o.gfin(); res = Some(None); } other => { if h >= 0 && (h as usize) < pool.len() { pool[h as usize] = other; } } } }
+            17 => { match take(&mut pool, h) { H::Grp(o) => res = Some(Some(H::Child(o.ginto_child()))), H::GrpC(o) => res = Some(Some(H::Child(o.ginto_child()))), other => { if h >= 0 && (h as usize) < pool.len() { pool[h as usize] = other; } } } }
             13 | 14 => {
                 // a consuming call on the object that holds the LAST reference to its context
                 let _ = CTX_DROP_SITES.with(|v| std::mem::take(&mut *v.borrow_mut()));
